@@ -875,6 +875,7 @@ struct Value {
 
     void Merge(Value &&val) {
         if (isUndefined()) {
+            reset(); // A moved-from scalar keeps its old payload.
             setTypeToArray();
         }
 
@@ -898,6 +899,7 @@ struct Value {
 
     void Merge(const Value &val) {
         if (isUndefined()) {
+            reset(); // A moved-from scalar keeps its old payload.
             setTypeToArray();
         }
 
@@ -2184,7 +2186,9 @@ struct Value {
             }
 
             default: {
-                number_.Natural = SizeT64{0};
+                // Clear the whole payload: the scalar constructors only set the first eight bytes, and the
+                // value may be turned into a container right after this.
+                Memory::Initialize(&array_);
             }
         }
     }
